@@ -29,6 +29,8 @@ the mech carries exactly the features that matter (`cause`, `name_class`, `count
 `sym_len`, `digits`, `notes_class`).
 """
 import collections
+import decimal
+import math
 import os
 import random
 
@@ -50,6 +52,17 @@ REQUIRED_CLASSES = [
     'twins', 'input:list', 'input:dict', 'read:list', 'read:tuple', 'read:dict', 'output:file', 'output:string',
     'date:on', 'date:off', 'notes:none', 'notes:short', 'notes:long', 'notes:blank_inside', 'notes:keyword',
     'supp_data', 'supp_txt', 'supp_txt:keyword', 'supp_txt:numeric',
+    # comment lines of >= 80 columns with a record number look-alike in column 80
+    'supp_txt:w80:d1', 'supp_txt:w80:d2', 'supp_txt:w80:d3', 'supp_txt:w80:d4',
+    'supp_txt:w81:d1', 'supp_txt:w81:d2', 'supp_txt:w81:d3', 'supp_txt:w81:d4',
+    'supp_txt:w100:d1', 'supp_txt:w100:d2', 'supp_txt:w100:d3', 'supp_txt:w100:d4',
+    'supp_data:w80:d1', 'supp_data:w80:d2', 'supp_data:w80:d3', 'supp_data:w80:d4',
+    'supp_data:w81:d1', 'supp_data:w81:d2', 'supp_data:w81:d3', 'supp_data:w81:d4',
+    'supp_data:w100:d1', 'supp_data:w100:d2', 'supp_data:w100:d3', 'supp_data:w100:d4',
+    'supp_data:comment_before', 'supp_data:comment_between', 'supp_data:comment_inside_entry',
+    'supp_txt:commented_out_entry',
+    'name:starts_keyword', 'name:contains_keyword', 'name:equals_keyword', 'name:lowercase_keyword',
+    'name:starts_REAC',
     'name:plain', 'name:contains_END', 'name:starts_END', 'name:contains_THERMO', 'name:starts_THERMO',
     'name:numeric', 'name:starts_digit', 'name:special', 'name:len15', 'name:len1',
     'elements:1', 'elements:2', 'elements:3', 'elements:4', 'zero_count',
@@ -58,13 +71,20 @@ REQUIRED_CLASSES = [
     'species:1', 'species:2-20', 'species:21-199', 'species:200',
     'T:1.0', 'T:9999.9', 'T:int', 'T:decimals>1',
     'coef:zero', 'coef:negative', 'coef:1e-30', 'coef:1e30', 'coef:all_zero_record',
+    # ninth-digit rounding carries into the next decade (9.999999995e k <= |x| < 1e k+1)
+    'coef:carry', 'coef:carry:record2', 'coef:carry:record3', 'coef:carry:record4', 'coef:carry:last_field',
+    'coef:carry:negative', 'coef:carry:1ulp', 'coef:carry:exp<-9', 'coef:carry:exp>9', 'coef:below_carry',
 ]
 REQUIRED_PROBES = ['write_thermdat', 'read_thermdat', '_write_line1', '_write_line2', '_write_line3',
                    '_write_line4', '_insert_space', '_read_line1', '_read_line2', '_read_line3',
                    '_read_line4', '_read_line_num', '_is_temperature_header']
 ASSUMPTIONS = [
     'names: 1-15 ASCII printable non-blank characters, not starting with "!" (Chemkin comment marker), '
-    'unique inside one file, never exactly END or THERMO',
+    'unique inside one file, never exactly END or THERMO (upper case); other Chemkin keywords (REACTIONS, ELEMENTS, '
+    'SPECIES, SITE, BULK, TRANSPORT, ALL, NASA ... and their 4-letter forms) may start, occur in or be the whole '
+    'name, in any letter case',
+    'comment lines (first character "!") may appear in the comment block and anywhere inside the supplementary '
+    'data (before, between and inside entries) and may be 80 or more columns wide with any character in column 80',
     'each species has 1-4 elements with counts 1-999 plus 0-2 zero-count entries (which must not be written); '
     'symbols are one or two letters',
     'phase is one non-blank character; 1 <= T_low < T_mid < T_high <= 9999.9 with gaps >= 1 K; coefficients '
@@ -104,12 +124,38 @@ def _is_numeric(s):
     return True
 
 
+CHEMKIN_KEYWORDS = ['REACTIONS', 'REAC', 'ELEMENTS', 'ELEM', 'SPECIES', 'SPEC', 'SITE', 'BULK', 'TRANSPORT',
+                    'TRAN', 'ALL', 'NASA', 'END', 'THERMO', 'THER', 'SURF', 'GAS', 'DUP', 'REV', 'MWON', 'MWOFF',
+                    'SDEN', 'UNITS', 'MATERIAL']
+
+
+def keyword_classes(name):
+    """Chemkin keywords other than the exact upper-case END / THERMO (own classes), matched
+    without regard to letter case."""
+    out = []
+    up = name.upper()
+    for kw in CHEMKIN_KEYWORDS:
+        i = up.find(kw)
+        while i >= 0:
+            text = name[i:i + len(kw)]
+            if not (kw in ('END', 'THERMO') and text == kw):
+                out.append('equals_keyword' if up == kw else 'starts_keyword' if i == 0 else 'contains_keyword')
+                if text != kw:
+                    out.append('lowercase_keyword')
+            i = up.find(kw, i + 1)
+    if up.startswith('REAC'):
+        out.append('starts_REAC')
+    order = ['equals_keyword', 'starts_keyword', 'contains_keyword', 'lowercase_keyword', 'starts_REAC']
+    return [c for c in order if c in out]
+
+
 def name_classes(name):
     out = []
     if 'END' in name:
         out.append('starts_END' if name.startswith('END') else 'contains_END')
     if 'THERMO' in name:
         out.append('starts_THERMO' if name.startswith('THERMO') else 'contains_THERMO')
+    out.extend(keyword_classes(name))
     if _is_numeric(name):
         out.append('numeric')
     elif name[0].isdigit():
@@ -175,6 +221,16 @@ def gen_name(rng, cls):
                 else _plain(rng, 1, 4)) + 'THERMO' + _tail(rng, 0, 4)
     if cls == 'starts_THERMO':
         return 'THERMO' + _tail(rng, 1, 6)
+    if cls in ('starts_keyword', 'contains_keyword', 'equals_keyword'):
+        kw = rng.choice(CHEMKIN_KEYWORDS)
+        kw = rng.choice([kw, kw, kw.lower(), kw.capitalize(), kw[0].lower() + kw[1:]])
+        if cls == 'equals_keyword':
+            return kw if kw not in ('END', 'THERMO') else kw.lower()
+        if cls == 'starts_keyword':
+            return kw + rng.choice(['1', 'ANT', 'ant_A', '(S)', '*', '-2', 'S', 'x']) if rng.random() < 0.6 \
+                else kw + _tail(rng, 1, 5)
+        return (rng.choice(['x', 'C2', '(', '1', 'pre', 'N']) if rng.random() < 0.6 else _plain(rng, 1, 3)) + kw + \
+            _tail(rng, 0, 3)
     if cls == 'numeric':
         k = rng.random()
         if k < 0.7:
@@ -203,8 +259,21 @@ def gen_name(rng, cls):
 
 NAME_CLASSES = ['plain', 'contains_END', 'starts_END', 'contains_THERMO', 'starts_THERMO', 'numeric',
                 'starts_digit', 'special', 'len15', 'len1']
-KEYWORD_CLASSES = ['contains_END', 'starts_END', 'contains_THERMO', 'starts_THERMO']
+KEYWORD_CLASSES = ['contains_END', 'starts_END', 'contains_THERMO', 'starts_THERMO', 'starts_keyword',
+                   'starts_keyword', 'contains_keyword', 'equals_keyword']
 BENIGN_CLASSES = ['plain', 'plain', 'numeric', 'starts_digit', 'special', 'len15', 'len1']
+
+
+def keyword_name_grid():
+    """Every keyword x {starts, contains, equals} x {upper, lower, capitalised}: unique valid names."""
+    out = []
+    for kw in CHEMKIN_KEYWORDS:
+        for form in (kw, kw.lower(), kw.capitalize()):
+            for nm in (form + '1', 'x' + form + '(S)', form, form + 'ant_A'):
+                nm = nm[:15]
+                if _valid_name(nm) and nm not in out:
+                    out.append(nm)
+    return out
 
 
 def _valid_name(s):
@@ -241,11 +310,51 @@ def gen_elements(rng, allow_s2d3, allow_float):
     return out
 
 
+CARRY_D = ['1e-9', '4e-9', '5e-9', '6e-9', '1e-10', '1e-12', 'ulp']
+
+
+def carry_value(d, k, sign=1):
+    """(10 - d) * 10**k as the nearest double of that decimal literal; d = 'ulp' gives the
+    largest double below 10**(k+1).  With nine significant digits the values with
+    d <= 5e-9 must be printed as 1.00000000E(k+1), d = 6e-9 as 9.99999999E(k)."""
+    if d == 'ulp':
+        v = math.nextafter(float('1e%d' % (k + 1)), 0.0)
+    else:
+        v = float('%se%d' % (decimal.Decimal(10) - decimal.Decimal(d), k))
+    return sign * v
+
+
+_CTX9 = decimal.Context(prec=9, rounding=decimal.ROUND_HALF_EVEN)
+
+
+def carry_class(v):
+    """'carry' when rounding to nine significant digits moves |v| into the next decade,
+    'below' when it is within 1e-8 relative under a decade but stays there, else None."""
+    if v == 0.0:
+        return None
+    if not ('%.10e' % abs(v)).startswith(('9.99999999', '1.0000000000e')):
+        return None
+    d = decimal.Decimal(abs(v))
+    if d.adjusted() < _CTX9.plus(d).adjusted():
+        return 'carry'
+    if ('%.10e' % abs(v)).startswith('9.99999999'):
+        return 'below'
+    return None
+
+
+def gen_carry(rng):
+    # k in -30..29 keeps 1e-30 <= |v| < 1e30 (the carried value is at most 1.00000000E+30)
+    return carry_value(rng.choice(CARRY_D), rng.randint(-30, 29) if rng.random() < 0.8 else rng.choice([-30, -1, 0, 29]),
+                       rng.choice([1, -1]))
+
+
 def gen_coef(rng):
     k = rng.random()
     if k < 0.12:
         return 0.0
-    if k < 0.16:
+    if k < 0.15:
+        return gen_carry(rng)
+    if k < 0.18:
         return rng.choice([1e-30, -1e-30, 1e30, -1e30])
     e = rng.randint(-30, 29)
     m = rng.uniform(1.0, 9.999999)
@@ -254,7 +363,10 @@ def gen_coef(rng):
 
 def gen_coefs(rng, style):
     if style == 'realistic':
-        return gs.gen_nasa7_coeffs(rng, style='realistic')
+        a = gs.gen_nasa7_coeffs(rng, style='realistic')
+        if rng.random() < 0.1:
+            a[rng.randrange(7)] = gen_carry(rng)
+        return a
     if style == 'zeros':
         return [0.0] * 7
     return [gen_coef(rng) for _ in range(7)]
@@ -344,6 +456,38 @@ SUPP_TXT = [
 ]
 
 
+def wide_comment(width, digit, text='! superseded fit, kept for reference'):
+    """A comment line of `width` >= 80 columns whose 80th character is `digit`."""
+    ln = text.ljust(79)[:79] + digit
+    if width == 81:
+        ln += digit
+    elif width > 81:
+        ln += (' see the note above; refit 2019-03-07 ' * 3)[:width - 80]
+    return ln
+
+
+WIDE_COMMENTS = [wide_comment(w, d, t) for w in (80, 81, 100) for d, t in zip(
+    '1234', ['! superseded fit, kept for reference', '!', '! 5.14987613E+00-1.36709788E-02 4.91800599E-05',
+             '!END of the THERMO block 300 1000 5000'])]
+
+
+def commented_out_entry():
+    """An old entry disabled in place: column 1 of each of its four records overwritten with
+    '!' (the record numbers stay in column 80)."""
+    txt = rt.format_entry('OLDCH4', [('C', 1), ('H', 4)], 'G', 200.0, 3500.0, 1000.0, A_LOW0, A_HIGH0,
+                          date='121286', style='right')
+    return ['!' + ln[1:] for ln in txt.split('\n') if ln]
+
+
+def gen_wide_lines(rng):
+    k = rng.random()
+    if k < 0.3:
+        return commented_out_entry()
+    return [wide_comment(rng.choice([80, 81, 100, rng.randint(80, 120)]), rng.choice('1234'),
+                         rng.choice(['! note', '!', '! 1 2 3', '! END', '!THERMO', '! 3.65264072E+00 1.06108515E-03']))
+            for _ in range(rng.randint(1, 4))]
+
+
 def generate(rng, tier):
     k = rng.random()
     if k < 0.15:
@@ -384,6 +528,15 @@ def generate(rng, tier):
             'species': [gen_species(rng, nm, allow_s2d3, allow_float) for nm in names]}
     if spec['supp'] and rng.random() < 0.4:
         spec['supp_newline'] = False         # the writer has to terminate the block itself
+    if spec['supp_txt'] is not None and rng.random() < 0.4:
+        lines = gen_wide_lines(rng)
+        body = spec['supp_txt']
+        spec['supp_txt'] = ('\n'.join(lines) + '\n' + body) if rng.random() < 0.5 else \
+            (body.rstrip('\n') + '\n' + '\n'.join(lines))
+    if spec['supp'] and rng.random() < 0.5:
+        spec['supp_comments'] = {'before': gen_wide_lines(rng) if rng.random() < 0.6 else [],
+                                 'between': gen_wide_lines(rng) if rng.random() < 0.6 else [],
+                                 'inside': gen_wide_lines(rng) if rng.random() < 0.6 else []}
     if n < 200 and rng.random() < 0.25:
         # twins: adjacent species that differ only in their names (isomers, the same
         # adsorbate on two sites) must stay two species
@@ -484,7 +637,41 @@ def directed(tier):
     D.append(F([CH4, OK], supp_txt=SUPP_TXT[9] + '\n' + SUPP_TXT[3] + '\n' + SUPP_TXT[4]))
     D.append(F([CH4, S('PENDANT', [('C', 10), ('H', 22)]), OK], supp_txt=SUPP_TXT[10] + '\n' + SUPP_TXT[11],
                write_date=True))
-    # 27-28 200 species
+    # wide comment lines (80 / 81 / 100 columns, '1'..'4' in column 80, a commented-out entry) in the
+    # comment block and before / between / inside the supplementary entries
+    allwide = WIDE_COMMENTS + commented_out_entry()
+    D.append(F([CH4, S('PENDANT', [('C', 10), ('H', 22)]), OK], supp_txt='\n'.join(allwide),
+               supp=[gen_supp(rng, 0), gen_supp(rng, 1), gen_supp(rng, 2)]))
+    D[-1]['supp_comments'] = {'before': list(allwide), 'between': list(allwide), 'inside': list(allwide)}
+    D.append(F([CH4, OK], supp_txt='\n'.join(commented_out_entry()) + '\n', supp=[gen_supp(rng, 0)],
+               read_format='dict', output='string', write_date=True))
+    D[-1]['supp_comments'] = {'before': [], 'between': list(WIDE_COMMENTS), 'inside': commented_out_entry()}
+    D[-1]['supp_newline'] = False
+    D.append(F([CH4, H2O, OK], supp_txt='\n'.join(WIDE_COMMENTS[::-1]), read_format='tuple'))
+    # ninth-digit carry: every d x decade x sign, in each of the 14 positions
+    carry = [carry_value(d, k, sg) for k in range(-30, 30) for d in CARRY_D for sg in (1, -1)]
+    sp_c = []
+    for i in range(0, len(carry), 14):
+        vals = (carry[i:i + 14] + carry[:14])[:14]
+        sp_c.append(S('CARRY%d' % (i // 14), [('H', 1)], a_high=vals[0:7], a_low=vals[7:14]))
+    D.append(F(sp_c, read_format='tuple'))
+    one = []
+    for pos in range(14):
+        for j, d in enumerate(('1e-10', 'ulp')):
+            vals = list(A_HIGH0) + list(A_LOW0)
+            vals[pos] = carry_value(d, (pos * 4 + j * 7) % 60 - 30, -1 if (pos + j) % 2 else 1)
+            one.append(S('ONE%d%s' % (pos, 'ab'[j]), [('H', 1)], a_high=vals[0:7], a_low=vals[7:14]))
+    D.append(F(one, output='string', input='dict', read_format='dict'))
+    # other Chemkin keywords at the start of / inside / as the whole name, three letter cases
+    grid = keyword_name_grid()
+    half = (len(grid) + 1) // 2
+    D.append(F([S(nm, [('H', 1)]) for nm in grid[:half]]))
+    D.append(F([S(nm, [('C', 1), ('H', 4)], phase='S') for nm in grid[half:]], input='dict', read_format='dict',
+               write_date=True))
+    D.append(F([CH4, S('reactant_A', [('C', 2)]), OK, S('REAC1', [('H', 1)]), S('Reactions', [('H', 2)]),
+                S('elements', [('O', 1)]), S('SPECIES', [('N', 1)]), S('all', [('H', 3)]), S('site(S)', [('Pt', 1)]),
+                H2O], read_format='tuple'))
+    # 200 species
     rng = random.Random('C05:directed:200')
     names = ['SP%d%s' % (i, rng.choice(['', '(S)', '*', '-a'])) for i in range(200)]
     D.append(F([gen_species(rng, nm) for nm in names], write_date=True))
@@ -581,17 +768,30 @@ def build_sp(sp):
         raise core.HarnessError('could not build Nasa: %r' % e)
 
 
-def supp_text(supp, newline=True):
+def supp_text(supp, newline=True, comments=None):
+    """The supplementary block: entries from the independent formatter, optionally with comment
+    lines before the first entry, after entries ('between') and between the records of an
+    entry ('inside')."""
     if not supp:
         return None
-    txt = _supp_join(supp)
+    comments = comments or {}
+    n = len(supp)
+    blocks = []
+    for s in supp:
+        txt = rt.format_entry(s['name'], [tuple(e) for e in s['elements']], s['phase'], s['T_low'],
+                              s['T_high'], s['T_mid'], s['a_low'], s['a_high'], date=s['date'],
+                              style=s['style'])
+        blocks.append([[ln] for ln in txt.split('\n') if ln])       # four records, each a list of lines
+    for j, ln in enumerate(comments.get('inside') or []):
+        blocks[j % n][(j // n) % 3].append(ln)                        # after record 1, 2 or 3
+    for j, ln in enumerate(comments.get('between') or []):
+        blocks[j % max(1, n - 1)][3].append(ln)                       # after record 4 of an entry
+    lines = list(comments.get('before') or [])
+    for b in blocks:
+        for rec in b:
+            lines.extend(rec)
+    txt = '\n'.join(lines) + '\n'
     return txt if newline else txt.rstrip('\n')
-
-
-def _supp_join(supp):
-    return ''.join(rt.format_entry(s['name'], [tuple(e) for e in s['elements']], s['phase'], s['T_low'],
-                                   s['T_high'], s['T_mid'], s['a_low'], s['a_high'], date=s['date'],
-                                   style=s['style']) for s in supp)
 
 
 def expected_of(sp):
@@ -602,12 +802,12 @@ def expected_of(sp):
 
 
 # ---------------------------------------------------------------- attribution by isolation
-def _roundtrip(sps, write_date, tmp, supp=None, supp_txt=None):
+def _roundtrip(sps, write_date, tmp, supp=None, supp_txt=None, supp_comments=None):
     """Outcome of the real writer + reader on exactly these species: 'ok', 'write:<Exc>',
     'read:<Exc>' or 'mismatch' (number of species, names, phases, element counts)."""
     from pmutt.io.thermdat import write_thermdat, read_thermdat
     kw = {}
-    st = supp_text(supp)
+    st = supp_text(supp, True, supp_comments)
     if st:
         kw['supp_data'] = st
     if supp_txt is not None:
@@ -667,6 +867,10 @@ def diagnose_species(sp, wd, tmp, symptom=None):
         if symptom is not None:
             return diagnose_species(sp, wd, tmp, None)
         return {'cause': 'context', 'name_class': name_classes(sp['name'])[0]}
+    if bad(benign):
+        # fails with a benign name / composition / notes: temperatures, coefficients or phase
+        carry = any(carry_class(v) == 'carry' for v in list(sp['a_low']) + list(sp['a_high']))
+        return {'cause': 'numbers_or_phase', 'coef_carry': carry}
     if bad(dict(benign, name=sp['name'])):
         return {'cause': 'name', 'name_class': name_classes(sp['name'])[0]}
     for el in nonzero(sp):
@@ -677,8 +881,6 @@ def diagnose_species(sp, wd, tmp, symptom=None):
     if bad(dict(benign, elements=sp['elements'])):
         zero = any(e[1] == 0 for e in sp['elements'])
         return {'cause': 'composition', 'combo': 'zero_count' if zero else 'n_elements=%d' % len(nonzero(sp))}
-    if bad(benign):
-        return {'cause': 'numbers_or_phase'}
     return {'cause': 'combination'}
 
 
@@ -694,6 +896,9 @@ def diagnose_file(spec, tmp, symptom=None):
     one = spec['species'][:1]
     if spec.get('supp') and _roundtrip(one, wd, tmp, supp=spec['supp']) != 'ok':
         return {'cause': 'supp_data'}
+    if spec.get('supp') and spec.get('supp_comments') and _roundtrip(
+            one, wd, tmp, supp=spec['supp'], supp_comments=spec['supp_comments']) != 'ok':
+        return {'cause': 'supp_data_comments'}
     if spec.get('supp_txt') is not None and _roundtrip(one, wd, tmp, supp_txt=spec['supp_txt']) != 'ok':
         return {'cause': 'supp_txt'}
     return {'cause': 'context'}
@@ -741,6 +946,26 @@ def _classes(spec, ctx):
             body = ln[1:].split()
             if len(body) == 3 and all(_is_numeric(b) for b in body):
                 ctx.cls('supp_txt:numeric')
+    def wide(lines, where):
+        run = ''
+        for ln in lines:
+            if ln.startswith('!') and len(ln) >= 80 and ln[79] in '1234':
+                if len(ln) in (80, 81, 100):
+                    ctx.cls('%s:w%d:d%s' % (where, len(ln), ln[79]))
+                run = run + ln[79] if len(ln) == 80 else ''
+                if run.endswith('1234'):
+                    ctx.cls(where + ':commented_out_entry')
+            else:
+                run = ''
+    if st is not None:
+        wide(st.split('\n'), 'supp_txt')
+    sc = spec.get('supp_comments') if spec.get('supp') else None
+    if sc:
+        for key, label in (('before', 'comment_before'), ('between', 'comment_between'),
+                           ('inside', 'comment_inside_entry')):
+            if sc.get(key):
+                ctx.cls('supp_data:' + label)
+                wide(sc[key], 'supp_data')
     nt = False
     for a, b in zip(sps, sps[1:]):
         if all(a[k] == b[k] for k in ('elements', 'T_low', 'T_mid', 'T_high', 'a_low', 'a_high')):
@@ -777,6 +1002,25 @@ def _classes(spec, ctx):
             ctx.cls('coef:1e30')
         if all(v == 0 for v in sp['a_low'][3:7]) or all(v == 0 for v in sp['a_high'][0:5]):
             ctx.cls('coef:all_zero_record')
+        # position in the file: a_high[0:5] | a_high[5:7] a_low[0:3] | a_low[3:7]
+        for pos, v in enumerate(list(sp['a_high']) + list(sp['a_low'])):
+            cc = carry_class(v)
+            if cc == 'below':
+                ctx.cls('coef:below_carry')
+            elif cc == 'carry':
+                rec = 2 if pos < 5 else 3 if pos < 10 else 4
+                ctx.cls('coef:carry', 'coef:carry:record%d' % rec)
+                if pos in (4, 9, 13):
+                    ctx.cls('coef:carry:last_field')
+                if v < 0:
+                    ctx.cls('coef:carry:negative')
+                if math.nextafter(abs(v), math.inf) == float('1e%d' % (decimal.Decimal(abs(v)).adjusted() + 1)):
+                    ctx.cls('coef:carry:1ulp')
+                e = decimal.Decimal(abs(v)).adjusted()
+                if e < -9:
+                    ctx.cls('coef:carry:exp<-9')
+                if e > 9:
+                    ctx.cls('coef:carry:exp>9')
         if (any(c in KEYWORD_CLASSES for c in ncs) or 'len15' in ncs or len(nz) == 4
                 or any(el[1] >= 10 for el in nz)):
             nt = True
@@ -1003,7 +1247,7 @@ def run_case(spec, ctx):
     objs = [build_sp(s) for s in sps]
     coll = {s['name']: o for s, o in zip(sps, objs)} if spec['input'] == 'dict' else list(objs)
     kw = {'write_date': spec['write_date']}
-    st = supp_text(supp, spec.get('supp_newline', True))
+    st = supp_text(supp, spec.get('supp_newline', True), spec.get('supp_comments'))
     if st:
         kw['supp_data'] = st
     if spec.get('supp_txt') is not None:
